@@ -9,13 +9,18 @@ RULE = ('Part A: every session shape (%d shapes x db kind x pooled/unpooled) is 
         'DB-API call sequence, then re-run once per (call index, legal fault kind) and once per pair where the '
         'second fault lands in the error-handling path of the first; a case is non-trivial when at least one '
         'injected fault fired, distinct by (shape, db kind, pooled, fired fault list). '
+        'Connection loss: the single-commit shapes are also run with a stand-in provider whose should_reconnect() is '
+        'true for the injected connection-lost error, once per statement, plus the pairs where the reconnect itself '
+        'cannot open a connection or the retried statement fails again (the "failed reconnect" clause). '
         'Part B: seeded thread schedules of 2-3 sessions with 0-2 faults (engine conc).')
 
 COMPONENTS = {
     'real': ['pony.orm.core (db_session, SessionCache, Database)', 'pony.orm.dbapiprovider (Pool, DBAPIProvider)',
              'pony.orm.dbproviders.sqlite (SQLiteProvider, SQLitePool)', 'CPython sqlite3 + libsqlite on tmpfs files'],
     'stub': ['thin DB-API proxy (ponysim.simdb) around sqlite3', 'SimLock replacing threading.Lock in the SQLite provider',
-             'seeded scheduler (Part B)'],
+             'seeded scheduler (Part B)',
+             'stand-in reconnecting provider: SQLiteProvider with should_reconnect() true for the injected connection-lost '
+             'error (the PostgreSQL/MySQL/Oracle providers themselves cannot run here)'],
 }
 
 
@@ -75,6 +80,8 @@ def main(tier, seed):
     with Pool() as pool:
         complete = gen_part_a(pool, col, tier, deadline)
         col.exhaustive = complete
+        from . import reconnect
+        reconnect.run(pool, col, tier, seed)
         try:
             from . import c19b
         except ImportError:
